@@ -66,7 +66,7 @@ var LeafKinds = []string{
 }
 
 var WrapKinds = []string{
-	"wrap", "wrapf", "wrapf0", "withmsg", "withmsgf", "withmsgf0", "safedetailsnofmt", "stack", "stackdeep", "hint", "hintf0", "detailf0", "hintf", "detail", "detailf", "safedetails", "stwrap",
+	"wrap", "wrapf", "wrapf0", "withmsg", "withmsgf", "withmsgf0", "safedetailsnofmt", "stack", "stackdeep", "stackn", "hint", "hintf0", "detailf0", "hintf", "detail", "detailf", "safedetails", "stwrap",
 	"telemetry", "domain", "issuelink", "tags", "assertion", "mark", "secondary", "combine", "wrapferr", "wrapfgosyntax",
 	"handled", "handledmsg", "handledmsgf", "handledmsgf0", "handledsafemsg", "handleddomain", "handleddomainmsg", "domhandled", "handleassert", "assertwrap",
 	"newfw", "newfwsuffix", "httpcode", "grpccode",
@@ -76,14 +76,24 @@ var WrapKinds = []string{
 	"uwrapformatter", "uwrapsafefmt", "uopt", "uwrapfmtold", "rwrapfull", "uwrapasself", "newfwerr", "ukeymarker",
 }
 
-var MultiKinds = []string{"join", "gojoin", "goerrorfmulti", "umulti", "rmulti", "umulticause", "umultias"}
+var MultiKinds = []string{"join", "subjoin", "gojoin", "goerrorfmulti", "umulti", "rmulti", "umulticause", "umultias"}
 
 // BarrierKinds hide their C behind a barrier.
 var BarrierKinds = []string{"handled", "handledmsg", "handledmsgf", "handledmsgf0", "handledsafemsg", "handleddomain", "handleddomainmsg", "domhandled", "handleassert", "assertwrap"}
 
 func IsBarrierKind(k string) bool { return in(k, BarrierKinds) }
 
-func IsMultiKind(k string) bool { return in(k, MultiKinds) || k == "umulticauser" }
+// Kinds outside the default configuration, enabled per property with
+// Cfg.With: umulticauser (a multi-cause type that also has Cause) and
+// umultiis (a multi-cause type with an Is method, lost in transfer)
+// only make sense for the local differential checks; uhinter for the
+// accessor checks; netopsrc (a net.OpError with Source and Addr)
+// because the library renders it differently from its Error() (known
+// finding F21), which every text-comparing check would report again.
+var ExtraWrapKinds = []string{"uhinter", "netopsrc"}
+var ExtraMultiKinds = []string{"umulticauser", "umultiis"}
+
+func IsMultiKind(k string) bool { return in(k, MultiKinds) || in(k, ExtraMultiKinds) }
 
 func in(k string, l []string) bool {
 	for _, x := range l {
@@ -122,6 +132,26 @@ func (g *Cfg) Without(kinds ...string) *Cfg {
 		return out
 	}
 	c.Leaves, c.Wraps, c.Multi = f(g.Leaves), f(g.Wraps), f(g.Multi)
+	return &c
+}
+
+// With returns a copy of the configuration plus the given kinds
+// (which may be outside the default lists).
+func (g *Cfg) With(kinds ...string) *Cfg {
+	c := *g
+	c.Leaves, c.Wraps, c.Multi = append([]string(nil), g.Leaves...), append([]string(nil), g.Wraps...), append([]string(nil), g.Multi...)
+	for _, k := range kinds {
+		switch {
+		case in(k, LeafKinds):
+			c.Leaves = append(c.Leaves, k)
+		case in(k, MultiKinds) || in(k, ExtraMultiKinds):
+			c.Multi = append(c.Multi, k)
+		case in(k, WrapKinds) || in(k, ExtraWrapKinds):
+			c.Wraps = append(c.Wraps, k)
+		default:
+			panic("With: unknown kind " + k)
+		}
+	}
 	return &c
 }
 
@@ -224,6 +254,13 @@ func (g *Cfg) drawWrap(t *rapid.T, budget *int, depth int) *Spec {
 	s := g.WrapOf(t, k, nil)
 	s.C = g.draw(t, budget, depth+1)
 	for i := range s.X {
+		if k == "mark" && rapid.IntRange(0, 2).Draw(t, "bareref") == 0 {
+			// the common use of Mark: the reference is a bare (package-level) error
+			if lk := rapid.SampledFrom(emptyAsMarkRef).Draw(t, "refkind"); in(lk, g.Leaves) {
+				s.X[i] = g.LeafOf(t, lk)
+				continue
+			}
+		}
 		s.X[i] = g.draw(t, budget, depth+1)
 	}
 	return s
@@ -271,8 +308,16 @@ func (g *Cfg) WrapOf(t *rapid.T, k string, c *Spec) *Spec {
 				s.S[i], s.S[j] = s.S[j], s.S[i]
 			}
 		}
-	case "domain", "handleddomain":
+	case "domain":
+		// I[0]: 0 a named domain, 1 the explicit NoDomain, 2 the
+		// literal Domain("") (zeros first: rapid shrinks to a named domain)
 		s.S = []string{str(t, "domain")}
+		s.I = []int{rapid.SampledFrom([]int{0, 0, 0, 0, 0, 0, 1, 2}).Draw(t, "domainkind")}
+	case "handleddomain":
+		s.S = []string{str(t, "domain")}
+	case "stackn":
+		// WithStackDepth leaving exactly I[0] frames of the stack
+		s.I = []int{rapid.IntRange(1, 3).Draw(t, "frames")}
 	case "ukeymarker":
 		// a type-mark extension is an identifier-like string: one line
 		s.S = []string{strings.ReplaceAll(strings.ReplaceAll(str(t, "marker"), "\n", "_"), "\r", "_")}
@@ -315,6 +360,8 @@ func (g *Cfg) WrapOf(t *rapid.T, k string, c *Spec) *Spec {
 		s.S = []string{rapid.SampledFrom([]string{"open", "connect"}).Draw(t, "syscall")}
 	case "netop":
 		s.S = []string{rapid.SampledFrom([]string{"dial", "read"}).Draw(t, "op"), rapid.SampledFrom([]string{"tcp", "udp", ""}).Draw(t, "net"), str(t, "addr")}
+	case "netopsrc":
+		s.S = []string{rapid.SampledFrom([]string{"dial", "write"}).Draw(t, "op"), rapid.SampledFrom([]string{"tcp", "udp", ""}).Draw(t, "net"), str(t, "source"), str(t, "addr")}
 	case "dnswrap":
 		s.S = []string{str(t, "err"), str(t, "name")}
 	case "uwrapformatter":
@@ -351,7 +398,9 @@ func (g *Cfg) MultiOf(t *rapid.T, k string) *Spec {
 	switch k {
 	case "goerrorfmulti", "umulti", "rmulti", "umulticause", "umulticauser", "umultias":
 		s.S = []string{g.Str(t, "msg")}
-	case "join", "gojoin":
+	case "umultiis":
+		s.S = []string{g.Str(t, "msg"), rapid.SampledFrom(SentinelNames).Draw(t, "target")}
+	case "join", "subjoin", "gojoin":
 		// bit i: a nil argument precedes branch i; bit n: trailing nil.
 		mask := 0
 		if rapid.IntRange(0, 2).Draw(t, "nils") == 0 {
